@@ -16,7 +16,6 @@ RULE = ("operation sequences on 1-3 sections of one output at terminal width 10:
         "40 over everything with sections created on the way, in ANSI and in plain mode; the emitted bytes (SGR sequences "
         "included) are replayed on an independent terminal emulator; the class of the theorems (good markup) is decided on both "
         "sides and compared; non-trivial = touches >= 2 sections or a wrapped line or a tag or an indentation; distinct by op sequence")
-THEOREMS = ["screen_is_stack", "screen_is_stack_plain", "rows_accounting", "good_line_shown", "sgr_occupies_no_cell", "plain_degrades"]
 TRUSTED = ["Base/Term.v as the terminal (infinite height, deferred auto-wrap, LF implies CR, an SGR sequence occupies no cell); "
            "tabs and wide characters in section texts are outside the model (a character is one cell); pastel is modelled by "
            "Model/Markup.v (tied by C11 and by this run)"]
